@@ -70,15 +70,22 @@ CHECKS = {
              "setter semantics is decided by the lock-step run (differential, generator-bounded) and by C03's comparison of "
              "each type with the Spec."),
     "C05": dict(
-        technique="Lean 4 proof of component laws (printable ASCII, re-encode identity, IPv4 round trip, opaque-path "
-                  "trailing space) + re-parse fixed point decided on the implementation",
-        text="Lean 4 theorems (all byte strings): every encoded component is printable ASCII, re-encoding is the identity "
-             "for every URL set, serialized IPv4 hosts re-parse to themselves (all 2^32), the opaque path state never "
-             "leaves a space before ?/#, paths begin with '/'. The composed fixed point parse(href)=same is evaluated on "
-             "the implementation for every generated and WPT (input, base) on both types, with the ASCII scan.",
-        design_ref="DESIGN.md §5 C05",
-        note="The composition theorem Spec.parse (href u) = u is stated (fixed_point_statement) but not proved; it is "
-             "decided per generated input on the implementation."),
+        technique="Lean 4 proof of the property on the Spec parser: every parse result is a canonical record and every "
+                  "canonical record re-parses from its href to itself (all inputs, all parsed bases), plus the plain-ASCII "
+                  "theorem; re-parse fixed point also decided on the implementation for generated and WPT inputs",
+        text="Lean 4 theorems: Props.C05.fixed_point - for every input and every base obtained by parsing, "
+             "Spec.parse input base = some u implies Spec.parse (href u) none = some u (identical record, hence identical "
+             "href and components); href_plain_ascii - every byte of that href is 0x21..0x7E except spaces inside, never "
+             "ending, an opaque path. Proved through an explicit canonical form (Lemmas/FixedPoint.lean: canonical => "
+             "fixed point, by running the parser over the serializer's output; Lemmas/ParseCanon.lean + HostCanon.lean: "
+             "every parser branch returns canonical records; IPv4 < 2^32, IPv6 = 8 x 16 bit from the host parsers). Also: "
+             "re-encoding is the identity for every URL set, IPv4/IPv6/opaque hosts re-parse to themselves. The "
+             "implementation is re-parsed for every generated and WPT (input, base) on both types (also under length "
+             "limits), with the ASCII scan; C01 ties it to the Spec.",
+        design_ref="DESIGN.md §5 C05, §11.3",
+        note="The IDNA step is a parameter of the Spec: the theorems assume IdnaStable (ToASCII output is ASCII and is "
+             "mapped to itself by domain-to-ASCII), which for the implementation is decided by C06/C16 and fails exactly at "
+             "the known 16384-byte cap; the theorems are about the WPT-validated Spec, tied to the C++ by correspondence."),
     "C07": dict(
         technique="Lean 4 refinement proof: every in-place editor of the single buffer commutes with the layout serialiser "
                   "(all contents, all inputs), lifted to histories; model editors tied to the real editors call by call; "
@@ -136,16 +143,24 @@ CHECKS = {
              "evaluating the predicate on the implementation."),
 
     "C08": dict(
-        technique="Lean 4 proof of the size-decision table of can_parse (all lengths, all limits) under explicit Expand3 / "
-                  "FastSound hypotheses + can_parse vs parse on the implementation under aimed limits",
-        text="Lean 4: Model/CanParse.lean is the decision table of can_parse over (fast-scanner answer, |input|, |base|, L); "
-             "theorem can_parse_size_logic proves it equal to 'parse base then input under L' for all values, given that a "
-             "normalized href is at most 3x its input (Expand3) and that a definite fast-scanner answer is right (FastSound); "
-             "the validation-only exits are read from the regenerated exit table. FastSound, Expand3 and the composition are "
-             "decided on the implementation for every generated (input, base, L), including the scanner's own grammar.",
-        design_ref="DESIGN.md §5 C08",
-        note="try_can_parse_absolute_fast itself is not modelled (compared through can_parse vs parse, ~20% of generated "
-             "cases give a definite scanner answer); Expand3 is an explicit hypothesis (IDNA expansion not proved)."),
+        technique="Lean 4 proof: a statement-by-statement model of the fast scanner try_can_parse_absolute_fast (and the "
+                  "decimal IPv4 kernel it calls) gives only correct definite answers, for every input (FastSound theorem); "
+                  "size-decision table of can_parse proved for all lengths/limits; model tied to the real scanner on every "
+                  "generated input; can_parse vs parse on the implementation under aimed limits",
+        text="Lean 4: Model/FastScan.lean transcribes try_can_parse_absolute_fast (trimming, http(s) shortcut, 7-byte scheme "
+             "window, merged authority/host scan with its xn--, forbidden-byte and IPv4 bookkeeping, last-significant-character "
+             "heuristic, port validation) and parse_ipv4_decimal_scalar. Theorem fast_scanner_sound: for every input and every "
+             "IDNA parameter, a definite answer of the scanner equals (Spec.parse input none).isSome (1900 lines: the Spec side "
+             "reduces success of an absolute special URL without credentials to the host and port states; the heuristic is "
+             "proved against the Standard's ends-in-a-number checker, the decimal kernel against the Standard's IPv4 parser, "
+             "the port check against the port state). Model/CanParse.lean is the decision table of can_parse over (scanner "
+             "answer, |input|, |base|, L); can_parse_size_logic(_scanner) proves it equal to 'parse base then input under L' for "
+             "all values given Expand3. L1: the Lean scanner answers t/f/n exactly like the C++ scanner on every generated "
+             "input (incl. a generator for the scanner's own grammar); can_parse is compared with parse under aimed limits.",
+        design_ref="DESIGN.md §5 C08, §11.3",
+        note="Expand3 (a normalized href is at most 3x its input) stays an explicit hypothesis (IDNA expansion is a parameter); "
+             "the AVX-512 variant of the IPv4 kernel is compared with the scalar one in C18, not modelled; the theorems are "
+             "about the WPT-validated Spec, tied to the C++ parser by C01's correspondence."),
     "C12": dict(
         technique="Lean 4 proof: list-of-pairs refinement, serialize/parse round trip for all lists, comparator = UTF-16 "
                   "code-unit lexicographic order and strict weak order, stable merge sort lemmas; model-vs-code correspondence",
